@@ -29,7 +29,7 @@ package jd
 
 //@ contract JsonNode.Equals
 //@   requires validNode(self) && validNode(n)
-//@   ensures ret0 == specEq(self, n, options)
+//@   ensures [C04 C03 C01 C13] ret0 == specEq(self, n, options)
 //@   carries C04 C15
 
 //@ contract (jsonList).Equals
